@@ -254,6 +254,48 @@ func childCases(sp *childSpec) int {
 			for sig, v := range r.viols {
 				note(sig, v.Msg, v.Count, cs, cs.size(), idx)
 			}
+			// fault stage on a subset of the cases: one tool failure in the judged sync or in one event handler
+			every := 8
+			if sp.Tier == "thorough" {
+				every = 64
+			}
+			if idx%every == 0 {
+				frng := evid.NewRng(sp.Seed, "c15fault", idx)
+				for ki, kind := range []string{"ipset", "iptables"} {
+					target, callID, evIdx := "sync", "sync", 0
+					if len(cs.Events) > 0 && frng.Intn(2) == 0 {
+						evIdx = frng.Intn(len(cs.Events))
+						target, callID = "event", fmt.Sprintf("event:%d", evIdx)
+					}
+					nOps := r.callOps[callID][ki]
+					if nOps == 0 {
+						run.Count("fault_target_without_"+kind+"_operations", 1)
+						continue
+					}
+					ks := []int{1 + frng.Intn(nOps)}
+					if sp.Tier == "thorough" {
+						ks = ks[:0]
+						for k := 1; k <= nOps; k++ {
+							ks = append(ks, k)
+						}
+					}
+					for _, k := range ks {
+						fs := &faultSpec{Kind: kind, Target: target, Event: evIdx, K: k}
+						fr := evalC15Fault(cs, fs, r)
+						run.Count("fault_runs", 1)
+						for c, v := range fr.counters {
+							run.Count(c, v)
+						}
+						if len(fr.viols) > 0 {
+							fc := cs.clone()
+							fc.Fault = fs
+							for sig, v := range fr.viols {
+								note(sig, v.Msg, v.Count, fc, fc.size(), idx)
+							}
+						}
+					}
+				}
+			}
 			if idx < 2*len(c15Modes) && idx%3 == 1 {
 				run.Sample(map[string]interface{}{"case": idx, "input": cs, "violation_signatures": keysOf(r.viols)})
 			}
@@ -614,7 +656,8 @@ func parentMain(fl *evid.Flags) int {
 			run.Inconclusive("mode never exercised: " + m)
 		}
 	}
-	for _, c := range []string{"full_syncs", "foreign_objects_compared", "restarts", "perturbations_applied",
+	for _, c := range []string{"faults_injected_ipset", "faults_injected_iptables", "fault_in_sync", "fault_in_event",
+		"full_syncs", "foreign_objects_compared", "restarts", "perturbations_applied",
 		"planted_stale_policy-chain", "events_policy-update", "events_pod-update", "events_pod-delete", "events_policy-delete"} {
 		if run.Counter(c) == 0 {
 			run.Inconclusive("never observed: " + c)
